@@ -36,6 +36,7 @@ class Kernel:
         self.cfg = cfg              # dict: short_read, short_write, eagain (probabilities), delays (list)
         self.stats = stats
         self.socks = {}
+        self.blocking_calls = []      # (fd, call) of would-block calls made on a socket that was left in blocking mode
         self.next_fd = 1000
 
     def pair(self, cap_ab, cap_ba, family=socket.AF_UNIX):
@@ -76,6 +77,12 @@ class SimSocket:
         self._fd = kern.next_fd
         kern.socks[self._fd] = self
         self.closed = False
+        self._blocking = False      # as created by the harness; the from_socket() kinds hand over a blocking socket object
+
+    @property
+    def __class__(self):
+        # isinstance(sock, socket.socket) is what anyio's from_socket() constructors check
+        return socket.socket
 
     # -- the socket API used by asyncio transports and anyio's raw socket streams ------------------
     def fileno(self):
@@ -88,7 +95,19 @@ class SimSocket:
         return "sim-peer" if self.family == socket.AF_UNIX else ("127.0.0.1", self._fd ^ 1)
 
     def setblocking(self, flag):
-        pass
+        self._blocking = bool(flag)
+
+    def settimeout(self, t):
+        self._blocking = t is None or t > 0
+
+    def getblocking(self):
+        return self._blocking
+
+    def _would_block(self, what):
+        # on a socket left in blocking mode the call would not return: the whole event loop thread would freeze
+        if self._blocking:
+            self.kern.blocking_calls.append((self._fd, what))
+        return BlockingIOError(errno.EAGAIN, "would block")
 
     def getsockopt(self, *a):
         return 0
@@ -110,7 +129,7 @@ class SimSocket:
         if not rx.buf:
             if rx.eof and not rx.flight:
                 return b""
-            raise BlockingIOError(errno.EAGAIN, "would block")
+            raise self._would_block("recv")
         if k.cfg["eagain"] and k.rng.random() < k.cfg["eagain"]:
             k.stats["eagain"] += 1
             raise BlockingIOError(errno.EAGAIN, "would block (spurious)")
@@ -139,7 +158,7 @@ class SimSocket:
         k.settle(tx)
         free = tx.cap - len(tx.buf) - self._in_flight(tx)
         if free <= 0:
-            raise BlockingIOError(errno.EAGAIN, "would block")
+            raise self._would_block("send")
         if k.cfg["eagain"] and k.rng.random() < k.cfg["eagain"]:
             k.stats["eagain"] += 1
             raise BlockingIOError(errno.EAGAIN, "would block (spurious)")
